@@ -283,6 +283,8 @@ func c07Render(lines *[]string, s *c07Stmt, ind string) {
 		}
 	case "assign":
 		*lines = append(*lines, ind+s.v1+" = "+s.cond.text)
+	case "store":
+		*lines = append(*lines, ind+c07StoreText(s))
 	case "call":
 		*lines = append(*lines, ind+s.cond.text)
 	case "raw":
@@ -484,6 +486,8 @@ func (in *c07Interp) exec(s *c07Stmt) c07Sig {
 			return sig
 		}
 		cell.v = v
+	case "store":
+		return in.store(s)
 	case "call":
 		if s.cond.eval == nil {
 			return c07Fail
@@ -626,12 +630,17 @@ func (in *c07Interp) exec(s *c07Stmt) c07Sig {
 		if sig != c07None {
 			return sig
 		}
-		type pair struct{ a, b interface{} }
+		// the positions (array), keys (object, sorted) and characters (string) are fixed when the
+		// loop starts; the element of an array and the value of an object are READ WHEN THEIR TURN
+		// COMES, so a store the body made to a slot not yet visited is what that pass sees
+		type pair struct{ a, b func() interface{} }
+		konst := func(v interface{}) func() interface{} { return func() interface{} { return v } }
 		var items []pair
 		switch x := it.(type) {
 		case []interface{}:
-			for i, e := range x {
-				items = append(items, pair{e, float64(i)})
+			for i := range x {
+				i := i
+				items = append(items, pair{func() interface{} { return x[i] }, konst(float64(i))})
 			}
 		case map[string]interface{}:
 			keys := make([]string, 0, len(x))
@@ -640,11 +649,12 @@ func (in *c07Interp) exec(s *c07Stmt) c07Sig {
 			}
 			sort.Strings(keys)
 			for _, k := range keys {
-				items = append(items, pair{k, x[k]})
+				k := k
+				items = append(items, pair{konst(k), func() interface{} { return x[k] }})
 			}
 		case string:
 			for off, r := range x {
-				items = append(items, pair{string(r), float64(off)})
+				items = append(items, pair{konst(string(r)), konst(float64(off))})
 			}
 		default:
 			return c07Fail
@@ -655,9 +665,9 @@ func (in *c07Interp) exec(s *c07Stmt) c07Sig {
 				return c07Fail
 			}
 			if idx != nil {
-				idx.v = p.b
+				idx.v = p.b()
 			}
-			local.v = p.a
+			local.v = p.a()
 			sig := in.exec(s.body)
 			if sig == c07Brk {
 				in.cover["brk"]++
@@ -2826,4 +2836,566 @@ records:
 	emit(Case{Req: RunReq(prog, nil, []File{{Name: "in.json", Data: []byte(doc)}}, false), Fields: []string{"class", "out"},
 		Meta: metaProg(prog, "input", doc, "law", "next/exit executed while a pattern is evaluated"), Oracle: c07OutOracle(want.String()),
 		NonTrivial: func(i Resp) bool { return i["class"] == "ok" }})
+}
+
+// ---------------------------------------------------------------- forin-write-ahead
+//
+// for-in reads each element (array) / value (object) when its turn comes: a body
+// that stores into a slot of the very container being iterated -- one not yet
+// visited, the current one, or one already visited -- changes what the later passes
+// are bound to, never the current binding, and never the set or order of the
+// positions / keys visited (no structural change: no push / pop; a NEW key stored
+// into an iterated object is not visited).  The expected trace comes from the
+// reference interpreter (statement kind "store"; for-in reads live).
+
+// c07DeepCopy copies a decoded JSON-like tree.
+func c07DeepCopy(v interface{}) interface{} {
+	switch x := v.(type) {
+	case []interface{}:
+		cp := make([]interface{}, len(x))
+		for i, e := range x {
+			cp[i] = c07DeepCopy(e)
+		}
+		return cp
+	case map[string]interface{}:
+		cp := make(map[string]interface{}, len(x))
+		for k, e := range x {
+			cp[k] = c07DeepCopy(e)
+		}
+		return cp
+	}
+	return v
+}
+
+func c07IsIdent(s string) bool {
+	if s == "" || s == "length" || s == "in" || s == "is" {
+		return false
+	}
+	for i := 0; i < len(s); i++ {
+		c := s[i]
+		if !(c >= 'a' && c <= 'z' || c >= 'A' && c <= 'Z' || c == '_' || (i > 0 && c >= '0' && c <= '9')) {
+			return false
+		}
+	}
+	return true
+}
+
+// c07LitText renders a tree as a jqawk literal; object members in the given random order
+// (for-in and print must sort them).
+func c07LitText(r *rand.Rand, v interface{}) string {
+	switch x := v.(type) {
+	case float64:
+		return numLit(x)
+	case string:
+		l, _ := strLit(r, x)
+		return l
+	case bool:
+		return fmt.Sprint(x)
+	case []interface{}:
+		parts := make([]string, len(x))
+		for i, e := range x {
+			parts[i] = c07LitText(r, e)
+		}
+		return "[" + strings.Join(parts, ", ") + "]"
+	case map[string]interface{}:
+		keys := make([]string, 0, len(x))
+		for k := range x {
+			keys = append(keys, k)
+		}
+		sort.Strings(keys)
+		r.Shuffle(len(keys), func(i, j int) { keys[i], keys[j] = keys[j], keys[i] })
+		parts := make([]string, len(keys))
+		for i, k := range keys {
+			kt := mustStrLit(k)
+			if c07IsIdent(k) && chance(r, 0.5) {
+				kt = k
+			}
+			parts[i] = kt + ": " + c07LitText(r, x[k])
+		}
+		return "{" + strings.Join(parts, ", ") + "}"
+	}
+	return "null"
+}
+
+// c07FreshLit: a literal that yields a NEW tree at every evaluation (stores into it must not
+// leak into a later evaluation of the same literal).
+func c07FreshLit(r *rand.Rand, v interface{}) *c07Expr {
+	return &c07Expr{c07LitText(r, v), func(*c07Interp) (interface{}, c07Sig) { return c07DeepCopy(v), c07None }}
+}
+
+func c07Dollar() *c07Expr {
+	return &c07Expr{"$", func(in *c07Interp) (interface{}, c07Sig) { return in.dollar, c07None }}
+}
+
+func c07KeyOf(v interface{}) (string, bool) {
+	switch x := v.(type) {
+	case string:
+		return x, true
+	case float64:
+		return strconv.FormatFloat(x, 'f', -1, 64), true
+	}
+	return "", false
+}
+
+// c07Get: c[key] / c.name on an array (index in range, else null) or an object (missing: null).
+func c07Get(c, key *c07Expr, dot string) *c07Expr {
+	text := c.text + "[" + key.text + "]"
+	if dot != "" {
+		text = c.text + "." + dot
+	}
+	return &c07Expr{text, func(in *c07Interp) (interface{}, c07Sig) {
+		cv, sig := c.eval(in)
+		if sig != c07None {
+			return nil, sig
+		}
+		kv, sig := key.eval(in)
+		if sig != c07None {
+			return nil, sig
+		}
+		switch x := cv.(type) {
+		case []interface{}:
+			f, ok := kv.(float64)
+			if !ok || f < 0 || f != float64(int(f)) {
+				return nil, c07Fail
+			}
+			if int(f) >= len(x) {
+				return nil, c07None
+			}
+			return x[int(f)], c07None
+		case map[string]interface{}:
+			k, ok := c07KeyOf(kv)
+			if !ok {
+				return nil, c07Fail
+			}
+			if v, ok := x[k]; ok {
+				return v, c07None
+			}
+			return nil, c07None
+		}
+		return nil, c07Fail
+	}}
+}
+
+var c07StoreOps = []string{" = ", "++", " += ", "--", " -= "}
+
+// store statement: args[0] container, bound key (raw: written as .name), form an index of
+// c07StoreOps, cond the right-hand side (forms 0, 2, 4).
+func c07StoreText(s *c07Stmt) string {
+	target := s.args[0].text + "[" + s.bound.text + "]"
+	if s.raw != "" {
+		target = s.args[0].text + "." + s.raw
+	}
+	switch s.form {
+	case 1, 3:
+		if s.style%2 == 1 {
+			// a prefix operator must not start the statement: after a line ending in an operand it
+			// would be taken for that operand's postfix operator
+			return "u = " + strings.TrimSpace(c07StoreOps[s.form]) + target
+		}
+		return target + c07StoreOps[s.form]
+	}
+	return target + c07StoreOps[s.form] + s.cond.text
+}
+
+func (in *c07Interp) store(s *c07Stmt) c07Sig {
+	cv, sig := s.args[0].eval(in)
+	if sig != c07None {
+		return sig
+	}
+	kv, sig := s.bound.eval(in)
+	if sig != c07None {
+		return sig
+	}
+	var val interface{}
+	if s.cond != nil {
+		if s.cond.eval == nil {
+			return c07Fail
+		}
+		val, sig = s.cond.eval(in)
+		if sig != c07None {
+			return sig
+		}
+	}
+	var old interface{}
+	var set func(interface{})
+	switch x := cv.(type) {
+	case []interface{}:
+		f, ok := kv.(float64)
+		if !ok || f < 0 || f != float64(int(f)) || int(f) >= len(x) {
+			return c07Fail // never a structural change: the slot must exist
+		}
+		old, set = x[int(f)], func(v interface{}) { x[int(f)] = v }
+	case map[string]interface{}:
+		k, ok := c07KeyOf(kv)
+		if !ok {
+			return c07Fail
+		}
+		old, set = x[k], func(v interface{}) { x[k] = v }
+	default:
+		return c07Fail
+	}
+	switch val.(type) {
+	case []interface{}, map[string]interface{}:
+		return c07Fail // containers are shared, not copied: out of this family's scope
+	}
+	switch s.form {
+	case 0:
+		set(val)
+	case 1:
+		set(c07Num(old) + 1)
+	case 3:
+		set(c07Num(old) - 1)
+	case 4:
+		set(c07Num(old) - c07Num(val))
+	case 2:
+		_, so := old.(string)
+		_, sv := val.(string)
+		if so || sv {
+			str := func(v interface{}) string {
+				switch y := v.(type) {
+				case string:
+					return y
+				case float64:
+					return strconv.FormatFloat(y, 'f', -1, 64)
+				}
+				return ""
+			}
+			set(str(old) + str(val))
+		} else {
+			set(c07Num(old) + c07Num(val))
+		}
+	}
+	in.cover["store"]++
+	return c07None
+}
+
+type c07WA struct {
+	r       *rand.Rand
+	c       *c07Expr // the iterated container
+	isObj   bool
+	n       int      // array length
+	keys    []string // object keys, sorted
+	marker  bool     // elements are words and a "done" marker (else numbers)
+	v1, v2  string
+	counter string // arrays without index variable: position counter, incremented first in the body
+	stores  map[string]int
+}
+
+func c07Print(args ...*c07Expr) *c07Stmt { return &c07Stmt{kind: "print", args: args} }
+func c07Block(list ...*c07Stmt) *c07Stmt { return &c07Stmt{kind: "block", list: list} }
+func c07If(cond *c07Expr, body *c07Stmt) *c07Stmt {
+	return &c07Stmt{kind: "if", cond: cond, body: body}
+}
+
+// pos: the expression for "current position + d" and the guard that keeps it inside the array
+func (w *c07WA) pos(d int) (*c07Expr, *c07Expr) {
+	var cur *c07Expr
+	if w.v2 != "" {
+		cur = c07Var(w.v2)
+	} else {
+		cur = c07Bin("+", c07Var(w.counter), c07Lit(-1)) // the counter was incremented first
+	}
+	switch {
+	case d > 0:
+		return c07Bin("+", cur, c07Lit(d)), c07Bin("<", cur, c07Lit(w.n-d))
+	case d < 0:
+		return c07Bin("+", cur, c07Lit(d)), c07Bin(">=", cur, c07Lit(-d))
+	}
+	return cur, nil
+}
+
+func (w *c07WA) value(slot *c07Expr) (*c07Expr, int) {
+	r := w.r
+	if w.marker {
+		switch r.Intn(4) {
+		case 0:
+			return c07StrE(r, "done"), 0
+		case 1:
+			return c07StrE(r, pick(r, []string{"open", "x", "", "later"})), 0
+		case 2:
+			return c07Var(w.v1), 0
+		default:
+			return c07StrE(r, "done"), 2 // += : appended to what is there
+		}
+	}
+	switch r.Intn(8) {
+	case 0:
+		return c07Lit(r.Intn(90) + 10), 0
+	case 1:
+		if !w.isObj {
+			return c07Var(w.v1), 0
+		}
+		return c07Lit(r.Intn(9)), 0
+	case 2, 3: // running sum: the slot plus the current element / value
+		cur := w.v1
+		if w.isObj {
+			if w.v2 == "" {
+				return c07Bin("+", slot, c07Lit(100)), 0
+			}
+			cur = w.v2
+		}
+		return c07Bin("+", slot, c07Var(cur)), 0
+	case 4:
+		return nil, 1
+	case 5:
+		return nil, 3
+	case 6:
+		return c07Lit(1 + r.Intn(5)), 2
+	default:
+		return c07Lit(1 + r.Intn(5)), 4
+	}
+}
+
+// storeStmt: one store into the iterated container, guarded so that it never leaves it
+func (w *c07WA) storeStmt(c *c07Expr) *c07Stmt {
+	r := w.r
+	st := &c07Stmt{kind: "store", args: []*c07Expr{c}, style: r.Intn(2)}
+	var guard *c07Expr
+	where := ""
+	if w.isObj {
+		k := pick(r, w.keys)
+		where = "key"
+		switch {
+		case chance(r, 0.12):
+			st.bound = c07Var(w.v1) // the current key
+			where = "current"
+		case chance(r, 0.08):
+			k = pick(r, []string{"zz_new", "A_new", "m_new"}) // a key the object does not have: stored, not visited
+			st.bound = c07StrE(r, k)
+			where = "new-key"
+		default:
+			st.bound = c07StrE(r, k)
+			if c07IsIdent(k) && chance(r, 0.4) {
+				st.raw = k
+			}
+		}
+		if chance(r, 0.6) {
+			guard = c07Bin("==", c07Var(w.v1), c07StrE(r, pick(r, w.keys)))
+		}
+	} else {
+		switch r.Intn(6) {
+		case 0, 1, 2:
+			d := pick(r, []int{1, 1, 1, 2, 3})
+			if d >= w.n {
+				d = 1
+			}
+			st.bound, guard = w.pos(d)
+			where = "ahead"
+		case 3:
+			st.bound, guard = w.pos(-1)
+			where = "behind"
+		case 4:
+			st.bound, _ = w.pos(0)
+			where = "current"
+		default:
+			st.bound = c07Lit(r.Intn(w.n))
+			where = "fixed"
+			if chance(r, 0.5) {
+				cur, _ := w.pos(0)
+				guard = c07Bin(pick(r, []string{"==", "<", ">="}), cur, c07Lit(r.Intn(w.n)))
+			}
+		}
+	}
+	slot := c07Get(c, st.bound, st.raw)
+	st.cond, st.form = w.value(slot)
+	w.stores[where]++
+	if guard != nil {
+		if chance(r, 0.5) {
+			return c07If(guard, c07Block(st))
+		}
+		return c07If(guard, st)
+	}
+	return st
+}
+
+// loop: the for-in statement over w.c (depth 0) with a traced, storing body
+func (w *c07WA) loop(tag string, depth int) *c07Stmt {
+	r := w.r
+	v1, v2 := w.v1, w.v2
+	tr := []*c07Expr{c07StrE(r, tag), c07Var(v1)}
+	if v2 != "" {
+		tr = append(tr, c07Var(v2))
+	}
+	var body []*c07Stmt
+	if w.counter != "" {
+		body = append(body, &c07Stmt{kind: "assign", v1: w.counter, cond: c07Bin("+", c07Var(w.counter), c07Lit(1))})
+	}
+	traceFirst := chance(r, 0.7)
+	if traceFirst {
+		body = append(body, c07Print(tr...))
+	}
+	if w.marker && chance(r, 0.7) {
+		// mark-and-skip: an entry marked done by an earlier pass is skipped
+		val := v1
+		if w.isObj {
+			val = v2
+		}
+		if val != "" {
+			body = append(body, c07If(c07Bin("==", c07Var(val), c07StrE(r, "done")), c07Block(c07Print(c07StrE(r, "skip"), c07Var(v1)), &c07Stmt{kind: "continue"})))
+		}
+	}
+	for i, n := 0, 1+r.Intn(3); i < n; i++ {
+		body = append(body, w.storeStmt(w.c))
+	}
+	if !traceFirst || chance(r, 0.3) {
+		// the bindings of this pass are not touched by the stores
+		body = append(body, c07Print(tr...))
+	}
+	if chance(r, 0.3) {
+		body = append(body, c07Print(c07StrE(r, "now"), w.c))
+	}
+	if depth == 0 && chance(r, 0.15) && (w.isObj || w.v2 != "") {
+		// the same container iterated again inside the pass, storing as well
+		in := *w
+		in.v1, in.v2 = v1+"2", ""
+		if v2 != "" {
+			in.v2 = v2 + "2"
+		}
+		if !in.isObj && in.v2 == "" {
+			in.v2 = "j2"
+		}
+		in.counter = ""
+		body = append(body, in.loop(tag+"-inner", 1))
+	}
+	if chance(r, 0.12) {
+		cur := c07Var(v1)
+		var cond *c07Expr
+		if w.isObj {
+			cond = c07Bin("==", cur, c07StrE(r, pick(r, w.keys)))
+		} else if w.marker {
+			cond = c07Bin("==", cur, c07StrE(r, "done"))
+		} else {
+			cond = c07Bin(">", cur, c07Lit(20+r.Intn(60)))
+		}
+		body = append(body, c07If(cond, &c07Stmt{kind: pick(r, []string{"break", "continue"})}), c07Print(c07StrE(r, "after"), c07Var(v1)))
+	}
+	return &c07Stmt{kind: "forin", cond: w.c, v1: v1, v2: v2, body: c07Block(body...)}
+}
+
+func c07GenWriteAhead(r *rand.Rand, tier string, emit func(Case)) {
+	n := tierN(tier, 1600, 30000)
+	for i := 0; i < n; i++ {
+		w := &c07WA{r: r, stores: map[string]int{}}
+		w.marker = chance(r, 0.3)
+		w.isObj = chance(r, 0.45)
+		elem := func() interface{} {
+			if w.marker {
+				return pick(r, []string{"open", "open", "open", "x", "done"})
+			}
+			if chance(r, 0.1) {
+				return pick(r, []interface{}{nil, true, "7", float64(-3), 2.5})
+			}
+			return float64(r.Intn(9) + 1)
+		}
+		var content interface{}
+		if w.isObj {
+			keys := append([]string{}, "p", "q", "r", "b", "a10", "a9", "Z", "k y", "é", "10", "9")
+			r.Shuffle(len(keys), func(a, b int) { keys[a], keys[b] = keys[b], keys[a] })
+			keys = keys[:2+r.Intn(5)]
+			m := map[string]interface{}{}
+			for _, k := range keys {
+				m[k] = elem()
+			}
+			sort.Strings(keys)
+			w.keys, content = keys, m
+			w.v1 = pick(r, []string{"k", "key"})
+			if chance(r, 0.75) {
+				w.v2 = pick(r, []string{"v", "val"})
+			}
+		} else {
+			w.n = 2 + r.Intn(6)
+			arr := make([]interface{}, w.n)
+			for j := range arr {
+				arr[j] = elem()
+			}
+			content = arr
+			w.v1 = pick(r, []string{"x", "e"})
+			if chance(r, 0.7) {
+				w.v2 = pick(r, []string{"i", "idx"})
+			} else {
+				w.counter = "cnt"
+			}
+		}
+		p := &c07Prog{}
+		var files []File
+		var roots [][]interface{}
+		shape := pick(r, []string{"variable", "variable", "record", "record", "field", "nested-variable", "root"})
+		if shape == "root" && (w.isObj || w.marker) {
+			shape = "record"
+		}
+		var pre []*c07Stmt
+		if w.counter != "" {
+			pre = append(pre, &c07Stmt{kind: "assign", v1: w.counter, cond: c07Lit(0)})
+		}
+		end := func() *c07Stmt { return c07Print(c07StrE(r, "end"), w.c) }
+		doc := func(tree interface{}) {
+			b, _ := json.Marshal(tree)
+			files = []File{{Name: "in.json", Data: b}}
+			roots = [][]interface{}{c07DecodeRecords(string(b))}
+		}
+		switch shape {
+		case "variable":
+			name := pick(r, []string{"a", "box", "todo"})
+			w.c = c07Var(name)
+			list := append([]*c07Stmt{{kind: "assign", v1: name, cond: c07FreshLit(r, content)}}, pre...)
+			list = append(list, w.loop("t", 0), end())
+			if chance(r, 0.3) {
+				// the loop runs once per record over a container rebuilt by the literal each time
+				p.rules = []c07Rule{{kind: "main", body: c07Block(list...)}}
+				doc([]interface{}{float64(1), float64(2)})
+			} else {
+				p.rules = []c07Rule{{kind: "BEGIN", body: c07Block(list...)}}
+			}
+		case "nested-variable":
+			w.c = c07Get(c07Var("o"), c07StrE(r, "inner"), pick(r, []string{"inner", ""}))
+			outer := map[string]interface{}{"inner": content, "other": float64(1)}
+			list := append([]*c07Stmt{{kind: "assign", v1: "o", cond: c07FreshLit(r, outer)}}, pre...)
+			list = append(list, w.loop("t", 0), end(), c07Print(c07StrE(r, "whole"), c07Var("o")))
+			p.rules = []c07Rule{{kind: "BEGIN", body: c07Block(list...)}}
+		case "record":
+			w.c = c07Dollar()
+			second := c07DeepCopy(content)
+			list := append(append([]*c07Stmt{}, pre...), w.loop("t", 0), end())
+			p.rules = []c07Rule{{kind: "main", body: c07Block(list...)}}
+			if chance(r, 0.4) {
+				p.rules = append(p.rules, c07Rule{kind: "main", body: c07Block(c07Print(c07StrE(r, "second-rule"), c07Dollar()))})
+			}
+			doc([]interface{}{content, second})
+		case "field":
+			w.c = c07Field("f")
+			list := append(append([]*c07Stmt{}, pre...), w.loop("t", 0), end(), c07Print(c07StrE(r, "rec"), c07Dollar()))
+			p.rules = []c07Rule{{kind: "main", body: c07Block(list...)}}
+			doc([]interface{}{map[string]interface{}{"f": content, "g": float64(0)}, map[string]interface{}{"f": c07DeepCopy(content)}})
+		case "root":
+			// the root array itself, iterated in BEGINFILE: the records the rules then see are the stored ones
+			w.c = c07Dollar()
+			list := append(append([]*c07Stmt{}, pre...), w.loop("t", 0), end())
+			p.rules = []c07Rule{{kind: "BEGINFILE", body: c07Block(list...)}, {kind: "main", body: c07Block(c07Print(c07StrE(r, "rec"), c07Dollar()))}}
+			doc(content)
+		}
+		text := p.text()
+		meta := metaProg(text, "shape", shape, "container", map[bool]string{true: "object", false: "array"}[w.isObj], "variables", fmt.Sprint(1+map[bool]int{true: 1}[w.v2 != ""]),
+			"stores", c07Hist(w.stores), "row", shape, "col", map[bool]string{true: "object", false: "array"}[w.isObj])
+		if files != nil {
+			meta["input"] = string(files[0].Data)
+		}
+		c := Case{Req: RunReq(text, nil, files, false), Fields: []string{"class", "out"}, Meta: meta}
+		in := &c07Interp{}
+		if sig := in.runRoots(p, roots); sig != c07Fail {
+			c.Oracle = c07OutOracle(in.out.String())
+			c.Meta["reference"] = "yes"
+			c.Meta["executed"] = c07Hist(in.cover)
+		} else {
+			c.Meta["reference"] = "no"
+		}
+		emit(c)
+	}
+}
+
+func init() {
+	register(Family{
+		Name: "forin-write-ahead", Prop: "C07",
+		Rule: "for-in loops whose body stores into the very container being iterated, without changing its structure: arrays (element variable, with the index variable or with a position counter) and objects (key variable, with and without the value variable; keys whose sorted order differs from the literal's order) held in a variable, nested in a variable's member, being the record `$`, a field `$.f` of the record, and the root array iterated in BEGINFILE; 1-3 stores per pass to the slot 1-3 ahead, behind, the current one, a fixed position / key, the current key and (objects) a key not present; by `c[i] = v`, `c.k = v`, `++` / `--` (prefix and postfix), `+=`, `-=`; the value a constant, the current element, or the slot plus the current element (running sum); guarded by conditions on the index / key; mark-and-skip (an earlier pass marks a later entry done; the later pass must see it and `continue`), break / continue, the same container iterated again inside a pass, a trace of the bound variables before and after the stores and of the whole container; oracle: the trace of the reference interpreter (for-in fixes positions / sorted keys at loop entry and reads each element / value when its turn comes); every program is also compared with the model",
+		Gen:  c07GenWriteAhead,
+	})
 }
